@@ -465,7 +465,7 @@ def run(ctx):
                        "the pinset store is the in-memory datastore ipfs-cluster-service gives to raft",
                        "kill points are between FSM operations (seam 1) and between/inside commits at process level (seam 3), "
                        "not at every fsync"]
-    stages = os.environ.get("VERIF_C01_STAGES", "spec,fsm,raft,served,gate,repotests").split(",")   # debugging aid
+    stages = os.environ.get("VERIF_C01_STAGES", "spec,fsm,raft,served,gate,repotests,crash").split(",")   # debugging aid
     if "spec" in stages:
         spec_stage(ctx)
     if "fsm" in stages:
@@ -479,6 +479,10 @@ def run(ctx):
         gate_stage(ctx)
     if "repotests" in stages:
         repo_tests_stage(ctx)
+    if "crash" in stages:
+        # seam 3: SIGKILL of a child process hosting a real single-peer raft.Consensus (RaftCrash.tla)
+        from props import c01crash
+        c01crash.run(ctx)
 
 
 def served_cases_of(states):
